@@ -30,7 +30,7 @@ pub fn run(ctx: &mut Ctx) {
     let part = ctx.part.clone();
     let mut cov: HashSet<String> = HashSet::new();
     if part.is_empty() || part == "raw" { raw_and_int(ctx, &mut cov); }
-    if part.is_empty() || part == "bv" { bitvectors(ctx, &mut cov); }
+    if part.is_empty() || part == "bv" { bitvectors(ctx, &mut cov); big_bitvectors(ctx, &mut cov); }
     if part.is_empty() || part == "sparse" { sparse(ctx, &mut cov); }
     if part.is_empty() || part == "rl" { run_length(ctx, &mut cov); }
     if part.is_empty() || part == "wm" { wavelet(ctx, &mut cov); }
@@ -278,6 +278,40 @@ fn hostile_bv(h: &mut Hd, rng: &mut Rng, bv: &mut BitVector, other: Option<&BitV
             28 => h.call("BitVector::as_ref", "-", 0, || { let r: &RawVector = bv.as_ref(); r.len() }),
             _ => h.call("BitVector::enable_pred_succ", "-", 0, || bv.enable_pred_succ()),
         }
+    }
+}
+
+// Vectors large enough for long select superblocks (for ones and for zeros): hostile calls, then iterators started
+// inside every kind of superblock and walked to the very end (an iterator that starts at a wrong position runs its
+// unchecked word scan past the last word).
+fn big_bitvectors(ctx: &mut Ctx, cov: &mut HashSet<String>) {
+    if cfg!(miri) { return; }
+    let cases = if ctx.scale > 2 { 1 } else { ctx.size(2, 8) };
+    for c in 0..cases {
+        if !ctx.begin_case() { continue; }
+        let mut rng: Rng = ctx.rng(0xC08_900 + c as u64);
+        let invert = (c + ctx.shard) % 2 == 1;
+        let (p_spread, p_dense, p_sparse, p_tail, p_span) = (200_000 + rng.below(200_000), 4096 + rng.below(6000), 1 + rng.below(3), rng.below(3) * 2000 + rng.below(7), 200_000 + rng.below(60_000));
+        let bits = gen::superblock_mix(&mut rng, p_spread, p_dense, p_sparse, p_tail, p_span, invert);
+        let n = bits.len();
+        let mut bv = if c % 2 == 0 { mk::bv_set_bit(&bits) } else { mk::bv_iter(&bits) };
+        mk::enable_all(&mut bv);
+        let ones = bv.count_ones();
+        let zeros = n - ones;
+        let mut h = Hd { ctx, cov, calls: 0, panics: 0, what: format!("BitVector len {} with long and short select superblocks (ones {}, inverted {})", n, ones, invert) };
+        hostile_bv(&mut h, &mut rng, &mut bv, None, 20);
+        for k in 0..16usize {
+            let r1 = match k % 4 { 0 => 1 + rng.below(4094), 1 => ones.saturating_sub(1 + rng.below(std::cmp::min(ones, 4000) + 1)), _ => rng.below(ones + 1) };
+            let r0 = match k % 4 { 0 => 1 + rng.below(4094), 1 => zeros.saturating_sub(1 + rng.below(std::cmp::min(zeros, 4000) + 1)), _ => rng.below(zeros + 1) };
+            let p = rng.below(n + 1);
+            h.call("BitVector::select_iter.to_end", "in", r1, || bv.select_iter(r1).count());
+            h.call("BitVector::select_zero_iter.to_end", "in", r0, || bv.select_zero_iter(r0).last());
+            h.call("BitVector::successor.to_end", "in", p, || bv.successor(p).count());
+            h.call("BitVector::predecessor.to_end", "in", p, || bv.predecessor(p).last());
+            h.call("BitVector::select_iter.back", "in", r1, || bv.select_iter(r1).rev().take(70).count());
+        }
+        finish(h, &[22, c as u64, n as u64, ones as u64]);
+        ctx.sample(|| format!("bv-big: BitVector len {} (ones {}, long+short superblocks, inverted {}) x 20 hostile calls + 80 iterators walked to the end", n, ones, invert));
     }
 }
 
